@@ -70,7 +70,7 @@ def seeded():
             caught += 1
         rows.append("| %s | %s | %s | %s | %s | %s |" % (os.path.basename(d), site, needs, "yes" if m.get("valid_seed") else "no", "; ".join(c) or "-", ", ".join(miss) or "-"))
     rows.append("")
-    rows.append("%d seeded changes filed, %d caught by the quick tier of their own property's check." % (tot, caught))
+    rows.append("%d seeded changes filed, %d caught by their own property's check (tier given in each row; see the notes of the others)." % (tot, caught))
     return "\n".join(rows)
 
 
